@@ -77,6 +77,11 @@ def check_interp(res, spec, frames_real, rep, mism, tag):
             mism.append(("interp-position" + tag, "object %s at %s, specification (%s, %s)/%s" % (u, list(pos), w["x"], w["y"], den), rep))
         if not ang_close(yaw, (w["a"] / den) * 2 * math.pi / 24):
             mism.append(("interp-yaw" + tag, "object %s yaw %r, specification %s/%s x 15deg" % (u, yaw, w["a"], den), rep))
+    # the frame's registry is self-consistent: map -> base_link is the inverse of its (interpolated) base_link -> map
+    probe = (3.0, -2.0, 0.5)
+    back = res.transforms.transform((FrameID.MAP, FrameID.BASE_LINK), tuple(ego2map.transform(probe)))
+    if any(abs(a - b) > 1e-6 for a, b in zip(back, probe)):
+        mism.append(("interp-transforms-inconsistent" + tag, "map->base_link of the interpolated frame is not the inverse of its base_link->map (%s -> %s)" % (probe, list(back)), rep))
     e = spec["ego"]
     if abs(ego2map.position[0] - e["x"] / den) > 1e-6 or abs(ego2map.position[1] - e["y"] / den) > 1e-6 or not ang_close(ego2map.rotation.yaw_pitch_roll[0], (e["q"] / den) * math.pi / 2):
         mism.append(("interp-ego-pose" + tag, "ego pose %s / yaw %r, specification %s/%s" % (list(ego2map.position), ego2map.rotation.yaw_pitch_roll[0], e, den), rep))
@@ -84,6 +89,7 @@ def check_interp(res, spec, frames_real, rep, mism, tag):
 
 def replay(arg):
     from perception_eval.common.dataset import get_interpolated_now_frame, get_now_frame
+    from perception_eval.common.schema import FrameID
 
     global _MGR
     frames, t, tol, out = arg
@@ -100,6 +106,9 @@ def replay(arg):
             idx = 0 if r is None else 1 + [i for i, f in enumerate(real) if f is r][0]
             if idx not in out["lookup"]:
                 mism.append(("lookup", "get_now_frame returned frame %d, specification %s (0 = nothing)" % (idx, sorted(out["lookup"])), rep))
+            # the loaded frames have been used before (an evaluation queries map -> base_link on them)
+            for f in real:
+                f.transforms.transform((FrameID.MAP, FrameID.BASE_LINK), (1.0, 2.0, 0.0))
             snap = [(f.unix_time, [(o.uuid, tuple(o.state.position), tuple(o.state.orientation.elements)) for o in f.objects],
                      {str(k): m.matrix.copy() for k, m in f.transforms.items()}) for f in real]
             ri = get_interpolated_now_frame(real, tq, tolq)
